@@ -369,7 +369,12 @@ struct Transport::Impl
             {
               return; // M-3: don't grow a buffer no one will drain
             }
-            if (bufIt->second->data.size() + data.size() > config.maxSyncReceiveBuffer)
+            // Once `overflow` is set the stream has a hole: nothing that arrives
+            // later may be appended behind it, or receiveSync would return
+            // post-gap bytes as ordinary data before it reports BufferOverflow
+            // (an undetectable gap). Overflow is terminal for the buffer.
+            if (bufIt->second->overflow ||
+                bufIt->second->data.size() + data.size() > config.maxSyncReceiveBuffer)
             {
               // Overflow: surface a distinct error to the parked waiter instead
               // of silently dropping (which would only fail at the caller's
